@@ -111,8 +111,13 @@ func init() {
 			var order []string
 			tok := 0
 			lit := func() string { return fmt.Sprintf("'k%dz'", tok) }
-			first := ""
-			var tokNames []string
+			first, firstExt := "", ""
+			var tokNames, emitNames []string
+			// names whose alphabetical order is unrelated to the declaration order
+			tname := func() string { return fmt.Sprintf("%s%d", Pick(c.Rng, []string{"T", "T", "K", "ZZ", "A"}), tok) }
+			xname := func() string { return fmt.Sprintf("%s%d", Pick(c.Rng, []string{"X", "X", "B", "YQ_", "A"}), tok) }
+			// every fifth specification declares NO token rule: all terminals are @external (hand-written lexer)
+			allExt := i%5 == 4
 			for f := 0; f < nf; f++ {
 				var sb strings.Builder
 				sb.WriteString("@lexer\n")
@@ -122,9 +127,13 @@ func init() {
 				ns := 1 + c.Rng.Intn(5)
 				nmode := 0
 				for k := 0; k < ns; k++ {
-					switch c.Rng.Intn(6) {
+					choice := c.Rng.Intn(6)
+					if allExt && choice != 5 {
+						choice = 3
+					}
+					switch choice {
 					case 0, 1, 2:
-						name := fmt.Sprintf("T%d", tok)
+						name := tname()
 						fmt.Fprintf(&sb, "%s = %s\n", name, lit())
 						tok++
 						enc = append(enc, "T:"+name)
@@ -137,11 +146,15 @@ func init() {
 						nx := 1 + c.Rng.Intn(2)
 						sb.WriteString("@external")
 						for x := 0; x < nx; x++ {
-							name := fmt.Sprintf("X%d", tok)
+							name := xname()
 							tok++
 							sb.WriteString(" " + name)
 							enc = append(enc, "X:"+name)
 							order = append(order, name)
+							emitNames = append(emitNames, name)
+							if firstExt == "" {
+								firstExt = name
+							}
 						}
 						sb.WriteString("\n")
 					case 4:
@@ -151,7 +164,7 @@ func init() {
 						enc = append(enc, "M:"+mname+"{")
 						nt := 1 + c.Rng.Intn(3)
 						for x := 0; x < nt; x++ {
-							name := fmt.Sprintf("T%d", tok)
+							name := tname()
 							fmt.Fprintf(&sb, "  %s = %s @pop_mode\n", name, lit())
 							tok++
 							enc = append(enc, "T:"+name)
@@ -162,14 +175,18 @@ func init() {
 						enc = append(enc, "}")
 					case 5:
 						// a fragment emitting some token (possibly declared later, possibly in another file)
-						if len(tokNames) > 0 {
-							fmt.Fprintf(&sb, "@frag %s @emit(%s)\n", lit(), Pick(c.Rng, tokNames))
+						if len(tokNames)+len(emitNames) > 0 {
+							fmt.Fprintf(&sb, "@frag %s @emit(%s)\n", lit(), Pick(c.Rng, append(append([]string{}, tokNames...), emitNames...)))
 							tok++
 							enc = append(enc, "O")
 						}
 					}
 				}
 				fm[fmt.Sprintf("f%d.lox", f)] = sb.String()
+			}
+			if first == "" && firstExt != "" {
+				first = firstExt
+				c.Count("specs-with-external-tokens-only")
 			}
 			if first == "" {
 				fm["f0.lox"] += "T999 = 'q'\n"
